@@ -54,4 +54,44 @@ theorem runUrls_length_chain {base : String} {fetch : String → Resp α} {u : S
   | fail hf => cases he
   | cons hf hn _ ih => simp [runUrls, hn, ih he]
 
+/-- **The pagination loop follows any run of the server exactly**: with enough fuel for the
+    requests of the run, `collect` requests exactly `runUrls`, yields the items of the pages in
+    server order, and ends the way the run ends.  Induction over the run; pages may be empty. -/
+theorem collect_run {base : String} {fetch : String → Resp α} (conv : α → Except Err β) (f : α → β)
+    {u : String} {ps : List (Page α)} {e : Option Err} (h : Run base fetch u ps e) :
+    ∀ fuel : Nat, (runUrls base u ps).length ≤ fuel →
+      (∀ p ∈ ps, ∀ a ∈ p.items, conv a = .ok (f a)) →
+      collect base fetch conv fuel u =
+        { urls := runUrls base u ps, items := (ps.flatMap (·.items)).map f, stop := e } := by
+  induction h with
+  | @last u p hf hn =>
+    intro fuel hfuel hc
+    cases fuel with
+    | zero => simp [runUrls] at hfuel
+    | succ n =>
+      have hy := yieldAll_ok conv f p.items (hc p (List.mem_singleton.mpr rfl))
+      simp [collect, hf, hy, hn, runUrls]
+  | @broken u p hf hn =>
+    intro fuel hfuel hc
+    cases fuel with
+    | zero => simp [runUrls] at hfuel
+    | succ n =>
+      have hy := yieldAll_ok conv f p.items (hc p (List.mem_singleton.mpr rfl))
+      simp [collect, hf, hy, hn, runUrls]
+  | @fail u e hf =>
+    intro fuel hfuel _
+    cases fuel with
+    | zero => simp [runUrls] at hfuel
+    | succ n => simp [collect, hf, runUrls]
+  | @cons u hr p ps e hf hn _ ih =>
+    intro fuel hfuel hc
+    cases fuel with
+    | zero => simp [runUrls] at hfuel
+    | succ n =>
+      have hy := yieldAll_ok conv f p.items (hc p (List.mem_cons_self ..))
+      have hlen : (runUrls base (base ++ hr) ps).length ≤ n := by
+        simp [runUrls, hn] at hfuel; exact hfuel
+      have := ih n hlen (fun q hq => hc q (List.mem_cons_of_mem _ hq))
+      simp [collect, hf, hy, hn, runUrls, this]
+
 end Acn.DataClient
